@@ -6,7 +6,7 @@
 From Coq Require Import ZArith List Bool Lia.
 From Emmet Require Import lib.Base model.MarkupTokenizer model.MarkupParser model.MarkupConvert model.MarkupResolve
      model.OutStream model.FormatHtml model.FormatIndent model.MarkupExpand
-     proofs.TextSpec proofs.TextProofs proofs.AttrProofs proofs.AttrText proofs.AttrTextParse proofs.AttrTextConvert.
+     proofs.TextSpec proofs.TextProofs proofs.TextLiteral proofs.AttrProofs proofs.AttrText proofs.AttrTextParse proofs.AttrTextConvert.
 Local Open Scope nat_scope.
 
 (* ================================================================ markup.parse *)
@@ -14,29 +14,42 @@ Definition merged_mentions (rev_attrs : bool) (e : selem) : option (list aattr) 
   match written_mentions e with [] => None | m => Some (merge_spec rev_attrs [] m) end.
 
 Definition resolved_node (rev_attrs : bool) (e : selem) : anode :=
-  ANode (Some (se_name e)) None None (merged_mentions rev_attrs e) [] false.
+  ANode (Some (se_name e)) (elem_text_value e) None (merged_mentions rev_attrs e) [] false.
+
+(* the xsl addon drops `select` from xsl:variable / xsl:with-param that have content: not our subject *)
+Definition xsl_rule_applies (cfg : mconfig) (e : selem) : bool :=
+  str_eqb (mc_syntax cfg) s_xsl
+  && (str_eqb (se_name e) s_xsl_variable || str_eqb (se_name e) s_xsl_with_param)
+  && match elem_text_value e with Some (_ :: _) => true | _ => false end.
 
 Theorem markup_parse_elem cfg e :
   selem_ok e -> jsx_ok (mc_jsx cfg) e -> mc_text cfg = WNone ->
   assoc_str (se_name e) (mc_snippets cfg) = None ->        (* the name is not a snippet *)
   match_lorem (se_name e) = LNo ->                         (* ... and not lorem / loremN *)
+  xsl_rule_applies cfg e = false ->
   markup_parse cfg (elem_text e) = Ok [resolved_node (mc_reverse_attrs cfg) e].
 Proof.
-  intros Hok Hj Htext Hsnip Hlorem. unfold markup_parse.
+  intros Hok Hj Htext Hsnip Hlorem Hxsl. unfold markup_parse.
   rewrite (element_attributes_text (mc_jsx cfg) (mkCenv (mc_text cfg) (mc_variables cfg) (mc_href cfg)) (mc_max_repeat cfg) e Hok Hj Htext). cbn [bind].
-  destruct Hok as [[Hne _] _]. unfold elem_node.
+  destruct Hok as [[Hne _] _]. unfold elem_node. unfold xsl_rule_applies in Hxsl.
+  unfold resolved_node, merged_mentions.
+  set (V := elem_text_value e) in *. set (M := written_mentions e) in *. clearbody V M.
   destruct (se_name e) as [|c0 nm] eqn:En; [congruence|].
   cbn [walk_resolve]. rewrite Hsnip. cbn [bind app].
   cbn [transform_list transform_tree andb is_input_name fst].
   unfold transform_node. cbn [nonempty]. rewrite Hlorem.
   replace (opt_str_eqb (Some (c0 :: nm)) s_label && has_input _) with false
     by (cbn [has_input]; rewrite andb_false_r; reflexivity).
-  rewrite !andb_false_r. cbn [fst].
-  unfold resolved_node, merged_mentions. rewrite En.
+  cbn [opt_str_eqb orb].
   rewrite merge_attributes_spec. unfold attrs_opt.
-  destruct (written_mentions (mkSElem (c0 :: nm) (se_parts e))) eqn:Em;
-    (replace (written_mentions e) with (written_mentions (mkSElem (c0 :: nm) (se_parts e))) by reflexivity);
-    rewrite Em; reflexivity.
+  assert (EV : match nonempty V with Some _ => true | None => false end =
+               match V with Some (_ :: _) => true | _ => false end) by (destruct V as [[|]|]; reflexivity).
+  rewrite EV.
+  destruct M as [|a0 M']; cbn [nonempty].
+  - rewrite andb_false_r. reflexivity.
+  - destruct (str_eqb (mc_syntax cfg) s_xsl && (str_eqb (c0 :: nm) s_xsl_variable || str_eqb (c0 :: nm) s_xsl_with_param));
+      cbn [andb] in Hxsl |- *; [|reflexivity].
+    rewrite Hxsl, andb_false_r. reflexivity.
 Qed.
 
 (* ================================================================ the HTML formatter on a leaf element *)
@@ -68,24 +81,30 @@ Proof. intros H. unfold comment_node, should_comment. rewrite H. destruct text; 
 Lemma should_format_top c n items : should_format c None n 0 items = false.
 Proof. destruct n. unfold should_format. destruct (negb (oc_format c)); reflexivity. Qed.
 
-Theorem html_leaf_value c (name : str) (attrs : option (list aattr)) :
+Definition value_text (v : option (list vtok)) : str :=
+  match v with Some l => concat (map tok_text l) | None => [] end.
+(* a value the formatter writes on the same line: no line break, not starting with a block-level tag *)
+Definition value_inline (c : oconfig) (v : option (list vtok)) : Prop :=
+  match v with
+  | Some ((_ :: _) as l) => toks_nl_free l /\ existsb has_newline l = false /\ starts_with_block_tag c l = false
+  | _ => True
+  end.
+
+Theorem html_leaf_value c (name : str) (value : option (list vtok)) (attrs : option (list aattr)) :
   name <> [] -> oc_comment_enabled c = false ->
   oc_format_leaf c = false -> mem_str name (oc_format_force c) = false ->
   nl_free (tag_name c name) ->
   Forall (fun a => form_nl_free (attr_out_spec c a)) (match attrs with Some l => l | None => [] end) ->
-  os_value (fs_out (html_format c [ANode (Some name) None None attrs [] false])) =
+  value_inline c value ->
+  os_value (fs_out (html_format c [ANode (Some name) value None attrs [] false])) =
     c_lt :: tag_name c name ++ attrs_text_out c (match attrs with Some l => l | None => [] end)
-    ++ [c_gt] ++ [c_lt; c_slash] ++ tag_name c name ++ [c_gt].
+    ++ [c_gt] ++ value_text (nonempty value) ++ [c_lt; c_slash] ++ tag_name c name ++ [c_gt].
 Proof.
-  intros Hne Hcom Hleaf Hforce Htag Hattrs.
+  intros Hne Hcom Hleaf Hforce Htag Hattrs Hval.
   destruct name as [|c0 nm]; [congruence|].
-  unfold html_format. cbn [html_element an_name an_attrs an_self an_children an_value andb negb truthy_l].
+  unfold html_format. cbn [html_element an_name an_attrs an_self an_children an_value andb negb].
   rewrite !should_format_top. cbn [get_indent andb]. rewrite !(comment_off c _ _ _ Hcom).
   rewrite Hleaf, Hforce. cbn [orb].
-  rewrite map_out_value by (intros; apply add_level_value).
-  rewrite push_str_value by (repeat (apply nl_free_cons; [reflexivity|]); apply nl_free_app; [exact Htag|reflexivity]).
-  rewrite push_tokens_value by (repeat constructor).
-  rewrite push_str_value by reflexivity.
   assert (Hfold : forall st,
             os_value (fs_out (match attrs with
                               | Some ((_ :: _) as l) =>
@@ -94,11 +113,25 @@ Proof.
                               end)) = os_value (fs_out st) ++ attrs_text_out c (match attrs with Some l => l | None => [] end)).
   { intros st. destruct attrs as [[|a l]|]; try (cbn; rewrite app_nil_r; reflexivity).
     apply push_attributes_value. exact Hattrs. }
-  rewrite Hfold.
-  rewrite push_str_value by (apply nl_free_cons; [reflexivity|exact Htag]).
   rewrite map_out_value by (intros; apply add_level_value).
-  cbn [fs_out os_value os_empty os_events rev map concat app tok_text caret].
-  rewrite app_nil_r. rewrite <- !app_assoc. reflexivity.
+  rewrite push_str_value by (repeat (apply nl_free_cons; [reflexivity|]); apply nl_free_app; [exact Htag|reflexivity]).
+  destruct value as [[|v0 V']|]; cbn [truthy_l negb andb nonempty value_text value_inline] in *.
+  - rewrite push_tokens_value by (repeat constructor). rewrite push_str_value by reflexivity. rewrite Hfold.
+    rewrite push_str_value by (apply nl_free_cons; [reflexivity|exact Htag]).
+    rewrite map_out_value by (intros; apply add_level_value).
+    cbn [fs_out os_value os_empty os_events rev map concat app tok_text caret].
+    rewrite app_nil_r. rewrite <- !app_assoc. reflexivity.
+  - destruct Hval as [Hv1 [Hv2 Hv3]]. rewrite Hv2, Hv3. cbn [orb].
+    rewrite push_tokens_value by exact Hv1. rewrite push_str_value by reflexivity. rewrite Hfold.
+    rewrite push_str_value by (apply nl_free_cons; [reflexivity|exact Htag]).
+    rewrite map_out_value by (intros; apply add_level_value).
+    cbn [fs_out os_value os_empty os_events rev map concat app].
+    rewrite <- !app_assoc. reflexivity.
+  - rewrite push_tokens_value by (repeat constructor). rewrite push_str_value by reflexivity. rewrite Hfold.
+    rewrite push_str_value by (apply nl_free_cons; [reflexivity|exact Htag]).
+    rewrite map_out_value by (intros; apply add_level_value).
+    cbn [fs_out os_value os_empty os_events rev map concat app tok_text caret].
+    rewrite app_nil_r. rewrite <- !app_assoc. reflexivity.
 Qed.
 
 (* ================================================================ names are free of line breaks *)
@@ -150,26 +183,39 @@ Qed.
 Definition html_family (syntax : str) : Prop :=
   str_eqb syntax s_haml = false /\ str_eqb syntax s_slim = false /\ str_eqb syntax s_pug = false.
 
+(* the text the element's `{...}` contributes *)
+Definition elem_out_text (e : selem) : str :=
+  match se_text e with Some T => unescape T | None => [] end.
+
+Lemma elem_value_text e : value_text (nonempty (elem_text_value e)) = elem_out_text e.
+Proof.
+  unfold elem_text_value, elem_out_text, text_value. destruct (se_text e) as [[|t0 T]|]; try reflexivity.
+  cbn [nonempty value_text map concat tok_text]. apply app_nil_r.
+Qed.
+
 Theorem expand_element_text x e :
   let m := xc_m x in
   let c := xc_o x in
   selem_ok e -> jsx_ok (mc_jsx m) e -> mc_text m = WNone ->
   assoc_str (se_name e) (mc_snippets m) = None -> match_lorem (se_name e) = LNo ->
+  xsl_rule_applies m e = false ->
   html_family (mc_syntax m) -> oc_comment_enabled c = false ->
   oc_format_leaf c = false -> mem_str (se_name e) (oc_format_force c) = false ->
   let attrs := merge_spec (mc_reverse_attrs m) [] (written_mentions e) in
   Forall (fun a => form_nl_free (attr_out_spec c a)) attrs ->
+  value_inline c (elem_text_value e) ->
   expand_markup_str x (elem_text e) =
     Ok (c_lt :: tag_name c (se_name e) ++ attrs_text_out c attrs
-        ++ [c_gt] ++ [c_lt; c_slash] ++ tag_name c (se_name e) ++ [c_gt]).
+        ++ [c_gt] ++ elem_out_text e ++ [c_lt; c_slash] ++ tag_name c (se_name e) ++ [c_gt]).
 Proof.
-  cbv zeta. intros Hok Hj Htext Hsnip Hlorem [Hs1 [Hs2 Hs3]] Hcom Hleaf Hforce Hattrs.
+  cbv zeta. intros Hok Hj Htext Hsnip Hlorem Hxsl [Hs1 [Hs2 Hs3]] Hcom Hleaf Hforce Hattrs Hval.
   unfold expand_markup_str, expand_markup.
-  rewrite (markup_parse_elem (xc_m x) e Hok Hj Htext Hsnip Hlorem). cbn [bind].
+  rewrite (markup_parse_elem (xc_m x) e Hok Hj Htext Hsnip Hlorem Hxsl). cbn [bind].
   unfold stringify_markup. rewrite Hs1, Hs2, Hs3. unfold resolved_node.
   pose proof Hok as [[Hne HF] _].
-  rewrite (html_leaf_value (xc_o x) (se_name e) (merged_mentions (mc_reverse_attrs (xc_m x)) e) Hne Hcom Hleaf Hforce
-             (tag_name_nl_free _ _ HF)).
-  - unfold merged_mentions. destruct (written_mentions e) as [|a l] eqn:Em; [reflexivity|]. reflexivity.
+  rewrite (html_leaf_value (xc_o x) (se_name e) (elem_text_value e) (merged_mentions (mc_reverse_attrs (xc_m x)) e)
+             Hne Hcom Hleaf Hforce (tag_name_nl_free _ _ HF)).
+  - rewrite elem_value_text. unfold merged_mentions. destruct (written_mentions e) as [|a l] eqn:Em; reflexivity.
   - unfold merged_mentions. destruct (written_mentions e) as [|a l] eqn:Em; [constructor|]. exact Hattrs.
+  - exact Hval.
 Qed.
